@@ -31,6 +31,13 @@ type FreeCase struct {
 	Max   int      `json:"max,omitempty"`
 	Spin  []int    `json:"spin"`
 	Out   []string `json:"out,omitempty"` // per task: ok | err | skip (free-running termination check)
+	// Placeholder: per task, the first graph first learns the id through a different Task object and is
+	// then given the shared one by a second AddTask (shared-task check)
+	Placeholder []bool `json:"placeholder,omitempty"`
+	// second stage of the same graph (re-run check): Stage2 more tasks are added after the first Run,
+	// the limit is changed to Max2 (0 = left alone), then the graph is Run again
+	Stage2 int `json:"stage2,omitempty"`
+	Max2   int `json:"max2,omitempty"`
 }
 
 func spin(n int) {
@@ -205,6 +212,41 @@ func checkFreeShared(c *FreeCase) error {
 		})
 	}
 	g1 := buildFree("g1", c, c.Deps, tasks)
+	for i, ph := range c.Placeholder {
+		if ph && i < c.N {
+			// g1 knew the id through another Task object before the shared one was added
+			g1 = nil
+		}
+	}
+	if g1 == nil {
+		g1 = dag.NewGraph("g1")
+		g1.TickerDuration = time.Microsecond
+		switch c.Mode {
+		case "serial":
+			g1.SetSerial()
+		case "max":
+			g1.SetMaxParallel(c.Max)
+		}
+		for i := 0; i < c.N; i++ {
+			if i < len(c.Placeholder) && c.Placeholder[i] {
+				i := i
+				g1.AddTask(dag.NewTask(taskID(i), func(ctx context.Context, opt *getoptions.GetOpt, args []string) error {
+					mu.Lock()
+					viol = append(viol, "placeholder definition of "+taskID(i)+" was run")
+					mu.Unlock()
+					return nil
+				}))
+			}
+		}
+		for i := 0; i < c.N; i++ {
+			g1.AddTask(tasks[i])
+		}
+		for i := 0; i < c.N; i++ {
+			for _, d := range c.Deps[i] {
+				g1.TaskDependsOn(tasks[i], tasks[d])
+			}
+		}
+	}
 	g2 := buildFree("g2", c, c.Deps2, tasks)
 	var wg sync.WaitGroup
 	errs := make([]error, 2)
@@ -228,6 +270,89 @@ func checkFreeShared(c *FreeCase) error {
 	}
 	return nil
 }
+
+// --- C15: the limit in force at a Run is the one last given to SetMaxParallel (a graph may be run in stages)
+
+func checkFreeRerun(c *FreeCase) error {
+	var cur, peak1, peak2 int32
+	stage := int32(1)
+	body := func(i int) getoptions.CommandFn {
+		return func(ctx context.Context, opt *getoptions.GetOpt, args []string) error {
+			n := atomic.AddInt32(&cur, 1)
+			pk := &peak1
+			if atomic.LoadInt32(&stage) == 2 {
+				pk = &peak2
+			}
+			for {
+				old := atomic.LoadInt32(pk)
+				if n <= old || atomic.CompareAndSwapInt32(pk, old, n) {
+					break
+				}
+			}
+			spin(2000 + c.Spin[i%len(c.Spin)])
+			atomic.AddInt32(&cur, -1)
+			return nil
+		}
+	}
+	tasks := make([]*dag.Task, c.N)
+	for i := 0; i < c.N; i++ {
+		tasks[i] = dag.NewTask(taskID(i), body(i))
+	}
+	g := buildFree("stages", c, c.Deps, tasks)
+	err, ok := runBounded(g)
+	if !ok {
+		return fmt.Errorf("inconclusive: first Run did not return within 30s")
+	}
+	if err != nil {
+		return fmt.Errorf("first Run returned %v", err)
+	}
+	limit1 := int32(1 << 30)
+	switch c.Mode {
+	case "serial":
+		limit1 = 1
+	case "max":
+		limit1 = int32(c.Max)
+	}
+	if peak1 > limit1 {
+		return fmt.Errorf("first Run: %d task functions executing at the same time, limit %d", peak1, limit1)
+	}
+	atomic.StoreInt32(&stage, 2)
+	for k := 0; k < c.Stage2; k++ {
+		g.AddTask(dag.NewTask(fmt.Sprintf("stage2-%02d", k), body(k)))
+	}
+	limit2 := limit1
+	if c.Max2 > 0 && c.Mode != "serial" {
+		g.SetMaxParallel(c.Max2)
+		limit2 = int32(c.Max2)
+	}
+	err, ok = runBounded(g)
+	if !ok {
+		return fmt.Errorf("inconclusive: second Run did not return within 30s")
+	}
+	if err != nil {
+		return fmt.Errorf("second Run returned %v", err)
+	}
+	if peak2 > limit2 {
+		return fmt.Errorf("second Run of the same graph (%d tasks added after the first Run, then SetMaxParallel(%d)): %d task functions executing at the same time, limit in force %d (first Run: mode %s limit %d)", c.Stage2, c.Max2, peak2, limit2, c.Mode, c.Max)
+	}
+	return nil
+}
+
+var freeRerun = &freeProp{ID: "C15", Sub: "stages",
+	Rule: "free-running: a random DAG is Run under a generated mode/limit, then 2-6 further independent tasks are added to the SAME graph, SetMaxParallel is called with a new (usually lower) limit and the graph is Run again; the peak number of task functions executing at the same time (atomic counter, tasks spin) must not exceed the limit in force at each Run; distinct by case",
+	Gen: func(t *rapid.T) *FreeCase {
+		c := genFree(t, []string{"parallel", "max", "max", "serial"}, 6, false)
+		if c.Mode == "max" {
+			c.Max = rapid.IntRange(2, 6).Draw(t, "max1")
+		}
+		c.Stage2 = rapid.IntRange(2, 6).Draw(t, "stage2")
+		c.Max2 = rapid.IntRange(0, 3).Draw(t, "max2")
+		return c
+	},
+	Check: checkFreeRerun,
+}
+
+func TestC15_stages(t *testing.T) { freeRerun.run(t) }
 
 type freeProp struct {
 	ID, Sub, Rule string
@@ -300,9 +425,13 @@ var freeCounter = &freeProp{ID: "C15", Sub: "free-counter",
 }
 
 var freeShared = &freeProp{ID: "C15", Sub: "shared",
-	Rule: "free-running: two graphs with independent random edges built over the SAME Task objects and run concurrently from two goroutines; each task sets a plain in-task flag, spins, clears it; the flag must never be seen set on entry and the race detector must stay silent; distinct by case",
+	Rule: "free-running: two graphs with independent random edges built over the SAME Task objects and run concurrently from two goroutines (in a third of the cases the first graph first learns some ids through a different Task object and is given the shared one by a later AddTask: the later definition is the one in force); each task sets a plain in-task flag, spins, clears it; the flag must never be seen set on entry and the race detector must stay silent; distinct by case",
 	Gen: func(t *rapid.T) *FreeCase {
-		return genFree(t, []string{"parallel", "parallel", "max", "serial", "serial"}, 6, true)
+		c := genFree(t, []string{"parallel", "parallel", "max", "serial", "serial"}, 6, true)
+		if rapid.IntRange(0, 2).Draw(t, "placeholders") == 0 {
+			c.Placeholder = rapid.SliceOfN(rapid.Bool(), c.N, c.N).Draw(t, "placeholder")
+		}
+		return c
 	},
 	Check: checkFreeShared,
 }
@@ -465,6 +594,7 @@ func init() {
 	freeOrder.register()
 	freeCounter.register()
 	freeShared.register()
+	freeRerun.register()
 }
 
 func TestC13_free(t *testing.T)        { freeOrder.run(t) }
